@@ -40,7 +40,8 @@ RULE = 'one task per (shape, flag set, criteria sequence); non-trivial = a solve
 def BOUNDS(tier):
     return ('shapes: corner set + seeded random shapes with ns<=4, np<=3, nl<=3 (quick ~%d, thorough ~%d), 2- and 3-agent, '
             'one/two-sided; flag sets: all of -twopl/-pc/-stab admissible for the shape; criteria: none, each single '
-            'criterion (default args + one non-default), seeded pairs/triples; numerics symbolic >= 0 unbounded') % (100, 330)
+            'criterion (default args + one non-default), seeded pairs/triples; thorough additionally: EVERY shape with <= 2 students, <= 2 projects, <= 2 lecturers '
+            '(none + the 9 single criteria); numerics symbolic >= 0 unbounded') % (100, 330)
 
 
 def tasks(tier, seed):
@@ -64,6 +65,19 @@ def tasks(tier, seed):
             for s in seqs:
                 out.append({'prop': ID, 'shape': lpchecks.shape_data(I), 'flags': flags,
                             'seq': s, 'forms': ['valid'], 'wf': False})
+    if tier == 'thorough':
+        # every shape with at most 2 students, 2 projects, 2 lecturers (up to lecturer relabelling), one- and two-sided
+        seen = {s.shape_key() for s in shs}
+        for dims in ((3, 2, 2, 2), (3, 2, 2, 1), (3, 1, 2, 2), (2, 2, 2, 2), (2, 1, 2, 2)):
+            for two in (True, False):
+                for I in shapes.enumerate_shapes(dims[0], dims[1], dims[2], dims[3], two):
+                    if I.shape_key() in seen:
+                        continue
+                    seen.add(I.shape_key())
+                    for flags in lpchecks.flag_sets_for(I):
+                        for s in [[]] + [[c] for c in SINGLES]:
+                            out.append({'prop': ID, 'shape': lpchecks.shape_data(I), 'flags': flags,
+                                        'seq': s, 'forms': ['valid'], 'wf': False})
     # a sample of the quantifier-free obligations is re-decided by cvc5 (disagreement = harness error)
     for t in out[::max(1, len(out) // (40 if tier == 'quick' else 200))]:
         t['cvc5'] = True
